@@ -155,9 +155,10 @@ def model_check(run, tier):
     muts = ["mut_noreprovide", "mut_takekeepsslot", "mut_dropqueued"]
 
     def one(c):
-        return c, vlib.tlc("BufferPool", "MC_BufferPool_%s.cfg" % c, workers=2, timeout=3000,
+        return c, vlib.tlc("BufferPool", "MC_BufferPool_%s.cfg" % c, workers=4 if c.endswith("thorough") else 2, timeout=6000,
                            coverage=(c in safety), jvm=["-Xmx3g"])
-    res = dict(pmap(one, safety + live + muts, 3 if tier == "quick" else 4))
+    order = sorted(safety + live + muts, key=lambda c: not c.endswith("thorough"))     # long ones first
+    res = dict(pmap(one, order, 3))
     ring_only = {"KernelArm", "KernelCancel", "KernelNoBufs", "PushMultishot", "YieldQueued"}
     for c in safety + live:
         r = res[c]
@@ -203,7 +204,7 @@ def run(run, tier, replay_path):
         t0 = time.time()
         # 2. programs
         quick = tier == "quick"
-        num = 20 if quick else 500
+        num = 20 if quick else 200
         maxlen = 16 if quick else 24
         combos = [("ring", 1, "pipe"), ("ring", 2, "pipe"), ("ring", 4, "pipe"), ("ring", 2, "stream"), ("ring", 4, "stream"),
                   ("ring", 1, "dgram"), ("ring", 2, "dgram"),
